@@ -23,11 +23,28 @@ translate/sched.py reads in src/siqs.rs and src/mpqs.rs on every run (Ymq/Gen/Sc
 * `siqs_mt_*`, `mpqs_mt_*`, … the instances; `source_ecm_shape_ok`, `ecm_abort_bounded`, `ecm_unit_length` for the
   curve loop of ecm.rs (a unit = one curve: read `done`, poll, work, publish; no shared store).
 
+Second generation (same translator, src/classgroup.rs, src/qsieve.rs, src/ecm.rs):
+* classgroup() has the worker structure of siqs(): its two shapes `cgMt`, `cgSt` are in the generated list `all`, so
+  `sched_inv_shape`, `shape_adds_exactly`, `abort_bounded_shape`, `source_shapes_ok` cover them; `cg_mt_abort_bounded`,
+  `cg_st_abort_bounded` are the instances (a unit = one A value). What reaches the store there is the prefix of a polynomial's
+  relations that the store itself accepts before it is complete (`if rels.done() { break; }` under the lock, pinned by the translator).
+* classical QS: ONE coordinating thread; a unit = one large block PAIR = the forward and the backward arm (only adds), joined, then
+  poll, completion decision, exit test (`ForkShape`). `qs_adds_exactly` + `qs_block_interleaving`: per pair exactly the two arms'
+  relations, interleaved in lock order with a pool, forward then backward without; `qs_abort_bounded`, `qs_unit_length`;
+  `source_fork_ok` pins the generated data (the poll is the first thing after the join).
+* ECM read as a unit (`ecmUnit`): entry test `done || abort`, then for a reporting curve the report and the flag;
+  `ecm_unit_abort_bounded`, `ecm_flag_sound` (flag set => something was reported, by a curve of the input), `source_ecm_unit_ok`
+  (the flag is declared, read in exit conditions, set to true: no other use).
+* `source_named_ok`: for EVERY driver, and in particular wherever a true poll only leaves the unit (closure `return`; generated list
+  `leavesLoop`), the poll is in `pre` before any add: later units run their entry test and nothing else.
+
 What this does not model: the cost of an action (the time between two polls is measured on the real code
-by the C05 check), `prepare_a` / `batch_inversion` (no protocol action) and classical QS (fork-join of two
-block sieves, a different protocol: tied by latency measurement and history replay only).
+by the C05 check), `prepare_a` / `batch_inversion` (no protocol action). In the model a true poll ends the WORKER; in the
+source it ends the unit for the drivers listed `false` in `leavesLoop` — the difference is the entry tests of the remaining
+units (no add, no sieving: `source_named_ok`), which the step bounds here do not count.
 -/
 import Ymq.Lemmas.SchedShape
+import Ymq.Lemmas.SchedShape2
 import Ymq.Props.C04
 import Ymq.Props.C05Sched
 
@@ -218,5 +235,208 @@ example :
 example : (compileShape siqsMt [[[2, 4], [6]]] : List (Act Nat)) =
     [Act.check, Act.check, Act.poll, Act.check, Act.add 2, Act.add 4, Act.publish,
      Act.check, Act.add 6, Act.publish] := by decide
+
+/-! ## classgroup, classical QS, ECM as a unit -/
+
+/-- the shapes of the second generation with the names used in `leavesLoop` -/
+def named : List (String × Shape) := namedShapes
+
+/-- obligations on the generated data, every driver: the names line up with the generated list of poll reactions; every unit
+polls; relations are added once per polynomial / arm / reporting curve and nowhere else; and wherever a true poll only leaves
+the UNIT (closure `return`: siqs, mpqs, classgroup with a pool; an ECM curve) the poll sits in `pre` before any add, so the
+units that follow an abort request run their `pre` up to the poll and nothing else -/
+theorem source_named_ok :
+    named.map Prod.fst = leavesLoop.map Prod.fst ∧
+    ∀ x ∈ named.zip leavesLoop,
+      pollsPerUnit x.1.2 = true ∧ addsOnce x.1.2 = true ∧ (x.2.2 = false → pollFirst x.1.2 = true) := by decide
+
+/-- classical QS, generated data: two arms that only add (per small block); after the join FIRST the poll, then the completion
+decision on the store and the exit it guards; identical with and without a pool apart from the fork; both leave the loop -/
+theorem source_fork_ok :
+    forkOk qsMtFork = true ∧ forkOk qsStFork = true ∧ qsMtFork.forked = true ∧ qsStFork.forked = false ∧
+      qsMtFork.after = [K.poll, K.publish, K.check] ∧ qsStFork.after = qsMtFork.after := by decide
+
+/-- ECM, generated data: a curve starts with `done || abort` and nothing else; reporting a factor is the only thing that sets the
+flag; the flag is declared, read in exit conditions and set to true — no other use -/
+theorem source_ecm_unit_ok :
+    ecmUnit.pre = [K.check, K.poll] ∧ ecmUnit.body = [K.add, K.publish] ∧ ecmUnit.post = [] ∧
+      (∀ u ∈ ecmDoneUses, u = Use.decl ∨ u = Use.exitCond ∨ u = Use.setTrue) ∧
+      ecmDoneUses.count Use.decl = 1 ∧ ecmDoneUses.count Use.exitCond = 1 ∧
+      ecmDoneUses.count Use.setTrue = ecmCurve.pre.count K.publish := by decide
+
+
+/-- classgroup with a pool / sequential: instances of `abort_bounded_shape` (a unit = one A value) -/
+theorem cg_mt_abort_bounded (add : σ → ρ → σ) (enough : σ → Bool) (s0 : σ)
+    (progs : List (List (List (List ρ)))) (B : Nat)
+    (hB : ∀ prog ∈ progs, ∀ u ∈ prog, (compileUnit cgMt u).length ≤ B)
+    (before after : List (Nat × Bool × Bool))
+    (heff : allEffective add enough (run add enough (initShape cgMt s0 progs) before) after)
+    (hab : allAbort after) : after.length ≤ progs.length * (2 * B) :=
+  abort_bounded_shape add enough cgMt (by decide) s0 progs B hB before after heff hab
+
+theorem cg_st_abort_bounded (add : σ → ρ → σ) (enough : σ → Bool) (s0 : σ)
+    (prog : List (List (List ρ))) (B : Nat)
+    (hB : ∀ u ∈ prog, (compileUnit cgSt u).length ≤ B)
+    (before after : List (Nat × Bool × Bool))
+    (heff : allEffective add enough (run add enough (initShape cgSt s0 [prog]) before) after)
+    (hab : allAbort after) : after.length ≤ 2 * B := by
+  have := abort_bounded_shape add enough cgSt (by decide) s0 [prog] B
+    (by intro p hp u hu; simp at hp; subst hp; exact hB u hu) before after heff hab
+  simpa using this
+
+/-- **classical QS adds exactly the relations of its arms**: per large block, without a pool the forward arm's relations then
+the backward arm's; with a pool the interleaving of the two (lock order) — see `qs_block_interleaving` -/
+theorem qs_adds_exactly (f : ForkShape) (blocks : List (List ρ × List ρ × List Bool)) :
+    pendingAdds (compileFork f blocks) =
+      blocks.flatMap (fun b => if f.forked then merge b.1 b.2.1 b.2.2 else b.1 ++ b.2.1) := by
+  unfold compileFork
+  rw [pendingAdds_compileShape (forkShape f) (by simp [forkShape])]
+  induction blocks with
+  | nil => rfl
+  | cons b bs ih =>
+    simp only [List.map_cons, List.flatten_cons, List.flatMap_cons, List.flatten_append, ih]
+    congr 1
+    unfold forkUnit
+    split <;> simp
+
+/-- an interleaving drops and duplicates nothing and keeps the order of each arm -/
+theorem qs_block_interleaving (a b : List ρ) (ch : List Bool) :
+    (merge a b ch).Perm (a ++ b) ∧ a.Sublist (merge a b ch) ∧ b.Sublist (merge a b ch) :=
+  ⟨merge_perm a b ch, merge_sublist_left a b ch, merge_sublist_right a b ch⟩
+
+/-- **classical QS, bounded work after an abort request** (a unit = one large block PAIR: both arms, the poll, the completion
+test): the predicate may start answering `true` after any prefix; from then on the coordinating thread — and with it the
+two arms, which only exist inside a unit — performs at most two units' worth of actions: the rest of the pair being sieved
+and, when the poll of that pair was already passed, the next pair up to its poll. However many large blocks are left. -/
+theorem qs_abort_bounded (add : σ → ρ → σ) (enough : σ → Bool) (f : ForkShape)
+    (hp : f.after.contains K.poll = true) (s0 : σ) (blocks : List (List ρ × List ρ × List Bool)) (B : Nat)
+    (hB : ∀ b ∈ blocks, (compileUnit (forkShape f) (forkUnit f b)).length ≤ B)
+    (before after : List (Nat × Bool × Bool))
+    (heff : allEffective add enough (run add enough (initFork f s0 blocks) before) after)
+    (hab : allAbort after) : after.length ≤ 2 * B := by
+  have := abort_bounded_shape add enough (forkShape f) (by simpa [pollsPerUnit, forkShape] using hp) s0
+    [blocks.map (forkUnit f)] B
+    (by
+      intro p hp' u hu
+      simp at hp'; subst hp'
+      obtain ⟨b, hb, rfl⟩ := List.mem_map.mp hu
+      exact hB b hb) before after heff hab
+  simpa using this
+
+/-- the length of a unit of the generated QS shapes: the relations of both arms plus the three actions after the join -/
+theorem qs_unit_length (b : List ρ × List ρ × List Bool) :
+    (compileUnit (forkShape qsMtFork) (forkUnit qsMtFork b)).length = b.1.length + b.2.1.length + 3 ∧
+    (compileUnit (forkShape qsStFork) (forkUnit qsStFork b)).length = b.1.length + b.2.1.length + 3 := by
+  have hm := (merge_perm b.1 b.2.1 b.2.2).length_eq
+  constructor
+  · simp [compileUnit, forkShape, forkUnit, qsMtFork, expand, expandK, hm]
+  · simp [compileUnit, forkShape, forkUnit, qsStFork, expand, expandK]
+    omega
+
+/-- **ECM, bounded work after an abort request** (a unit = one curve): each worker owns a list of curves, `some r` = the curve
+reports `r`; after the predicate starts answering `true` at most 8 protocol actions per worker remain in the model, where a true
+poll ends the worker. In the source a true poll ends the CURVE (`leavesLoop` says so): every later curve still runs its entry
+test `done || abort` and, by `source_named_ok` (`pollFirst`), nothing else. -/
+theorem ecm_unit_abort_bounded (add : σ → ρ → σ) (enough : σ → Bool) (s0 : σ)
+    (progs : List (List (Option ρ))) (before after : List (Nat × Bool × Bool))
+    (heff : allEffective add enough
+      (run add enough (initShape ecmUnit s0 (progs.map (fun p => p.map curveUnit))) before) after)
+    (hab : allAbort after) : after.length ≤ progs.length * 8 := by
+  have := abort_bounded_shape add enough ecmUnit (by decide) s0 (progs.map (fun p => p.map curveUnit)) 4
+    (by
+      intro prog hprog u hu
+      obtain ⟨p, _, rfl⟩ := List.mem_map.mp hprog
+      obtain ⟨o, _, rfl⟩ := List.mem_map.mp hu
+      cases o <;> simp [compileUnit, curveUnit, ecmUnit, expand, expandK]) before after heff hab
+  simpa using this
+
+/-- **ECM's found-factor flag is sound**: with the reports as the store, in every reachable configuration (any schedule, any
+stale reads, any abort answers) the flag is set only if some curve has reported, and everything reported is the report of
+one of the curves handed to the workers. So a curve skipped because it saw the flag never makes ecm() answer `None`. -/
+theorem ecm_flag_sound (progs : List (List (Option ρ))) (sched : List (Nat × Bool × Bool)) :
+    let c := run (fun s r => s ++ [r]) (fun s => !s.isEmpty)
+      (initShape ecmUnit ([] : List ρ) (progs.map (fun p => p.map curveUnit))) sched
+    (c.done = true → c.log ≠ []) ∧ c.store = c.log ∧ (∀ r ∈ c.log, ∃ prog ∈ progs, some r ∈ prog) := by
+  intro c
+  have h1 := sched_inv_shape (fun (s : List ρ) r => s ++ [r]) (fun s => !s.isEmpty) (fun _ => True) (fun _ => True)
+    (fun _ _ _ _ => trivial) ecmUnit ([] : List ρ) (progs.map (fun p => p.map curveUnit)) trivial
+    (fun _ _ _ _ _ _ _ _ => trivial) sched
+  obtain ⟨hs, _, _, hmem⟩ := h1
+  have hstore : c.store = c.log := by
+    show (run _ _ _ sched).store = (run _ _ _ sched).log
+    rw [hs, foldl_snoc]; simp
+  refine ⟨?_, hstore, ?_⟩
+  · intro hd
+    have := run_done_enough (fun (s : List ρ) r => s ++ [r]) (fun s => !s.isEmpty)
+      (by intro s r _; simp) sched
+      (initShape ecmUnit ([] : List ρ) (progs.map (fun p => p.map curveUnit)))
+      (by simp [initShape]) hd
+    intro hnil
+    rw [hstore] at this
+    simp [hnil] at this
+  · intro r hr
+    obtain ⟨prog, hprog, u, hu, p, hp, hrp⟩ := hmem r hr
+    obtain ⟨q, hq, rfl⟩ := List.mem_map.mp hprog
+    obtain ⟨o, ho, rfl⟩ := List.mem_map.mp hu
+    cases o with
+    | none => simp [curveUnit] at hp
+    | some x =>
+      simp only [curveUnit, List.mem_singleton] at hp
+      subst hp
+      simp only [List.mem_singleton] at hrp
+      subst hrp
+      exact ⟨q, hq, ho⟩
+
+
+/-! ### non-vacuity of the second generation -/
+
+/-- classical QS with a pool, two large blocks: the first pair's adds interleave (backward arm first), then poll, completion
+decision, exit test; the abort answer turns `true` while the first pair is being sieved: the pair is finished (2 more adds), the
+poll stops the loop, the second pair is never started: 3 steps, within 2 * 6 -/
+example :
+    let blocks : List (List Nat × List Nat × List Bool) := [([2, 4], [6], [false, true]), ([1], [3], [])]
+    let c0 := run (· + ·) (fun _ => false) (initFork qsMtFork 0 blocks) [(0, false, false)]
+    let after := [(0, false, true), (0, false, true), (0, false, true)]
+    let c := run (· + ·) (fun _ => false) c0 after
+    (compileFork qsMtFork blocks : List (Act Nat)) =
+      [Act.add 6, Act.add 2, Act.add 4, Act.poll, Act.publish, Act.check, Act.add 1, Act.add 3, Act.poll, Act.publish, Act.check] ∧
+    (compileFork qsStFork blocks : List (Act Nat)) =
+      [Act.add 2, Act.add 4, Act.add 6, Act.poll, Act.publish, Act.check, Act.add 1, Act.add 3, Act.poll, Act.publish, Act.check] ∧
+    c0.log = [6] ∧ c.log = [6, 2, 4] ∧ finished c = true ∧ after.length = 3 ∧ allAbort after ∧
+      (∀ b ∈ blocks, (compileUnit (forkShape qsMtFork) (forkUnit qsMtFork b)).length ≤ 6) := by
+  refine ⟨by decide, by decide, by decide, by decide, by decide, by decide, by simp [allAbort], by decide⟩
+
+example : qsMtFork.after.contains K.poll = true ∧ qsStFork.after.contains K.poll = true := by decide
+
+/-- classgroup with a pool: two workers, the abort answer turns `true` while worker 0 is inside its first A value -/
+example :
+    let progs : List (List (List (List Nat))) := [[[[2, 4], [6]], [[1], [3]]], [[[8], [10, 12]], [[5], []]]]
+    let c0 := run (· + ·) (fun _ => false) (initShape cgMt 0 progs) [(0, false, false), (0, false, false), (0, false, false), (0, false, false)]
+    let after := [(0, false, true), (1, false, true), (0, false, true), (1, false, true), (0, false, true),
+      (0, false, true), (0, false, true), (0, false, true), (0, false, true), (0, false, true)]
+    let c := run (· + ·) (fun _ => false) c0 after
+    c0.log = [2] ∧ c.log = [2, 4, 6] ∧ finished c = true ∧ after.length = 10 ∧
+      (∀ prog ∈ progs, ∀ u ∈ prog, (compileUnit cgMt u).length ≤ 9) := by decide
+
+example : (compileShape cgSt [[[2, 4], [6]]] : List (Act Nat)) =
+    [Act.check, Act.add 2, Act.add 4, Act.publish, Act.check, Act.add 6, Act.publish, Act.check, Act.poll] := by decide
+
+/-- ECM with a pool: worker 0 owns curves (nothing, report 7), worker 1 owns (nothing, report 9, nothing): worker 0 reports 7 and sets
+the flag; worker 1, inside its first curve's entry test, sees the flag and stops: `9` is never reported, the flag is set and the
+log is not empty -/
+example :
+    let progs : List (List (Option Nat)) := [[none, some 7], [none, some 9, none]]
+    let c := run (fun s r => s ++ [r]) (fun s => !s.isEmpty) (initShape ecmUnit ([] : List Nat) (progs.map (fun p => p.map curveUnit)))
+      [(0, false, false), (0, false, false), (0, false, false), (0, false, false), (0, false, false), (0, false, false), (1, false, false)]
+    c.log = [7] ∧ c.done = true ∧ finished c = true := by decide
+
+example :
+    let progs : List (List (Option Nat)) := [[none, some 7], [none, some 9, none]]
+    let after := [(0, false, true), (1, false, true), (0, false, true), (1, false, true)]
+    (compileShape ecmUnit (([none, some 7] : List (Option Nat)).map curveUnit)) = [Act.check, Act.poll, Act.check, Act.poll, Act.add 7, Act.publish] ∧
+    finished (run (fun s r => s ++ [r]) (fun s => !s.isEmpty) (initShape ecmUnit ([] : List Nat) (progs.map (fun p => p.map curveUnit))) after) = true ∧
+      after.length ≤ progs.length * 8 := by decide
+
+example : (merge [1, 2, 3] [10, 20] [false, true, true, false] : List Nat) = [10, 1, 2, 20, 3] := by decide
 
 end Ymq.C04Shape
